@@ -650,7 +650,8 @@ func c16Structural(c *core.Ctx, pkgs ...string) {
 		if len(pkgs) > 0 && (f.Pkg == nil || !containsStr(pkgs, c.RelOf(f.Pkg.Pkg))) {
 			continue
 		}
-		usesScanner, split, errChecked := false, false, false
+		usesScanner, split, errChecked, errReported := false, false, false, false
+		pf := p
 		maxTok := "default (64 KiB)"
 		allInstrs(f, func(fn *ssa.Function, ins ssa.Instruction) {
 			call, ok := ins.(ssa.CallInstruction)
@@ -675,6 +676,11 @@ func c16Structural(c *core.Ctx, pkgs ...string) {
 				split = true
 			case "(*bufio.Scanner).Err":
 				errChecked = true
+				if v := call.Value(); v != nil {
+					if ft := pf.fateOf(v); ft.returned || ft.sent {
+						errReported = true
+					}
+				}
 			}
 		})
 		if !usesScanner {
@@ -717,6 +723,7 @@ func c16Structural(c *core.Ctx, pkgs ...string) {
 		c.Ob("D/"+f.Name()+"/counters-are-word-sized", len(narrow) == 0, f.Pos(), "%s", first(uniqStrings(narrow), 3))
 		c.Ob("D/"+f.Name()+"/default-split-function", !split, f.Pos(), "the reader installs a custom split function; line-ending handling is no longer bufio.ScanLines'")
 		c.Ob("D/"+f.Name()+"/scanner-error-consulted", errChecked, f.Pos(), "Scanner.Err() is never consulted: an over-long line or read error would be taken for end of input")
+		c.Ob("D/"+f.Name()+"/scanner-error-reported", errReported, f.Pos(), "what Scanner.Err() returns is not returned or sent when it is non-nil (whatever the error is: an over-long line, a read fault): the records read so far would pass for the whole file")
 	}
 	var lims []string
 	for k, fs := range lineLimits {
